@@ -45,10 +45,15 @@ structure Mon where
   cur : NS                      -- node state after the previous operation
   stopsTotal : Nat
   stopOk : Bool                 -- a StopNode completion with succ = true has been delivered
+  inlineStop : Option Bool      -- the environment completes StopNode inside the call, with this result (none: later)
   deriving DecidableEq, Repr
 
-def Mon.init (n : Nat) (declared : List Nat) : Mon :=
-  { n := n, declared := declared, reported := [], cur := .working, stopsTotal := 0, stopOk := false }
+def Mon.init (n : Nat) (declared : List Nat) (inline : Option Bool := none) : Mon :=
+  { n := n, declared := declared, reported := [], cur := .working, stopsTotal := 0, stopOk := false,
+    inlineStop := inline }
+
+def inlineOf : StopMode → Option Bool
+  | .later => none | .inlineOk => some true | .inlineFail => some false
 
 def allIn (n : Nat) (l : List Nat) : Bool := (List.range n).all (fun i => l.contains i)
 
@@ -82,6 +87,13 @@ def retireAccepted (op : MOp) (o : Obs) : Bool :=
 def exitAccepted (op : MOp) (o : Obs) : Bool :=
   match op with | .cmd c => isExitCmd c && accepted o | _ => false
 
+def isStopDoneOk : MOp → Bool
+  | .stopDone true true => true | _ => false
+/-- a successful StopNode completion is delivered during this very operation: an explicit
+`stopDone true`, or a StopNode call in the inline-success regime -/
+def stopSucceedsNow (m : Mon) (op : MOp) (o : Obs) : Bool :=
+  isStopDoneOk op || (m.inlineStop == some true && decide (0 < o.stops))
+
 /-- The property clauses in the order in which they are reported: (violated?, signature).
 `m` is the bookkeeping *including* the current operation (`learn` already applied);
 `m.cur` is the node state before the operation. -/
@@ -109,9 +121,10 @@ def Mon.clauses (m : Mon) (op : MOp) (o : Obs) : List (Bool × String) :=
     (decide (0 < m.n) && allIn m.n m.reported && decide (o.st.rank < 3), "C12/not-retired-after-all-reported"),
     -- exit: StopNode is called, the node is exiting
     (exitAccepted op o && o.stops != 1, "C12/exit-without-stopnode"),
-    (exitAccepted op o && o.st != .exiting, "C12/exit-accepted-not-exiting"),
-    -- exited only after the stop succeeded
-    (o.st == .exited && !m.stopOk, "C12/exited-without-stop-success"),
+    (exitAccepted op o && decide (o.st.rank < 4), "C12/exit-accepted-not-exiting"),
+    -- exited only after the stop succeeded, and as soon as it did
+    (o.st == .exited && !(m.stopOk || stopSucceedsNow m op o), "C12/exited-without-stop-success"),
+    (stopSucceedsNow m op o && o.st != .exited, "C12/not-exited-after-stop-success"),
     -- a refused (or merely informational) command changes nothing
     (isCmdOp op && !accepted o && (o.pubs != [] || o.stops != 0 || o.sent != [] || o.st != m.cur),
       "C12/refused-changed-something"),
@@ -125,7 +138,8 @@ def Mon.check (m : Mon) (op : MOp) (o : Obs) : Option String :=
 def Mon.step (m : Mon) (op : MOp) (o : Obs) : Mon × Option String :=
   let m1 := m.learn op
   let v := m1.check op o
-  ({ m1 with cur := o.st, stopsTotal := m1.stopsTotal + o.stops }, v)
+  ({ m1 with cur := o.st, stopsTotal := m1.stopsTotal + o.stops,
+             stopOk := m1.stopOk || stopSucceedsNow m1 op o }, v)
 
 /-- run the monitor over a trace; the first verdict wins -/
 def Mon.runAll (m : Mon) : List (MOp × Obs) → Option String
@@ -137,16 +151,17 @@ def Mon.runAll (m : Mon) : List (MOp × Obs) → Option String
 
 /-- the monitor at the start of a case, from the observation of the start-up probe: a
 NodeService-kind service with an "ok" listener declared its support when it was asked -/
-def Mon.reset (kinds : List Kind) (ob : Obs) : Mon × Option String :=
+def Mon.reset (kinds : List Kind) (ob : Obs) (inline : Option Bool := none) : Mon × Option String :=
   let declared := (List.range kinds.length).filter fun i =>
     kinds[i]? == some Kind.nodeOk && ob.sent.contains (i, SCmd.queryretire)
-  (Mon.init kinds.length declared).step .tick ob
+  (Mon.init kinds.length declared inline).step .tick ob
 
 /-- a whole case: the probe observation, then the trace -/
-def monitorCase (kinds : List Kind) (resetObs : Obs) (tr : List (MOp × Obs)) : Option String :=
-  match (Mon.reset kinds resetObs).2 with
+def monitorCase (kinds : List Kind) (inline : Option Bool) (resetObs : Obs) (tr : List (MOp × Obs)) :
+    Option String :=
+  match (Mon.reset kinds resetObs inline).2 with
   | some v => some v
-  | none => (Mon.reset kinds resetObs).1.runAll tr
+  | none => (Mon.reset kinds resetObs inline).1.runAll tr
 
 /-! ### observing the model: what `modeld_c12 model` prints, as data -/
 
